@@ -34,7 +34,10 @@ class Check(PropertyCheck):
         return ImplEq()
 
     def generate(self, rng, n, tier):
-        for _ in range(n):
+        for i in range(n):
+            if i % 25 == 24:
+                yield Scenario(["new", f"mark rawinst {rng.randint(0, 10**6)}"], {"kind": "rawinst", "field": "structure"})
+                continue
             yield self.scenario(rng)
 
     def scenario(self, rng: random.Random) -> Scenario:
@@ -166,6 +169,28 @@ class Check(PropertyCheck):
             if cmd == "eqop" and eq and hash(x) != hash(y):
                 res.append(("hash", f"`{line}`: equal operations hash differently"))
             ctx["pair"] = (x, y)
+        elif line.startswith("mark rawinst"):
+            # instances whose operations carry no labels (set_operation_attributes=False) or that have an empty job:
+            # the job structure is part of the content
+            import jsl
+            r = random.Random(int(line.split()[2]))
+            ops = lambda n: [jsl.Operation(r.randrange(3), r.randint(1, 5)) for _ in range(n)]  # noqa: E731
+            spec = ops(r.randint(2, 4))
+            clone = lambda l: [jsl.Operation(list(o.machines), o.duration) for o in l]  # noqa: E731
+            k = r.randint(1, len(spec) - 1)
+            pairs = [
+                ("one job vs the same operations split into two jobs (no labels)",
+                 jsl.JobShopInstance([clone(spec)], set_operation_attributes=False),
+                 jsl.JobShopInstance([clone(spec)[:k], clone(spec)[k:]], set_operation_attributes=False), False),
+                ("same jobs, no labels", jsl.JobShopInstance([clone(spec)[:k], clone(spec)[k:]], set_operation_attributes=False),
+                 jsl.JobShopInstance([clone(spec)[:k], clone(spec)[k:]], set_operation_attributes=False), True),
+                ("trailing empty job", jsl.JobShopInstance([clone(spec), []]), jsl.JobShopInstance([clone(spec)]), False),
+                ("empty job in the middle", jsl.JobShopInstance([clone(spec)[:k], [], clone(spec)[k:]]),
+                 jsl.JobShopInstance([clone(spec)[:k], clone(spec)[k:]]), False),
+            ]
+            for what, a, b, want in pairs:
+                if (a == b) != want or (b == a) != want or (a != b) == want:
+                    res.append(("eq-structure", f"instances ({what}): == is {a == b}, content equality is {want}"))
         elif line == "mark other" and "pair" in ctx:
             x, y = ctx["pair"]
             for other in (None, 0, "x", (1, 2), [x], object()):
